@@ -412,3 +412,34 @@ func TopOK(ti *TypeInfo, cfg InstCfg) bool {
 	}
 	return true
 }
+
+// IsRecursive reports whether t can reach itself. plenc's Descriptor() of such
+// a codec recurses without end (stack overflow, not recoverable), so the
+// simulator never asks for it.
+func IsRecursive(t reflect.Type) bool {
+	return reaches(t, map[reflect.Type]bool{})
+}
+
+func reaches(t reflect.Type, onPath map[reflect.Type]bool) bool {
+	switch t.Kind() {
+	case reflect.Ptr, reflect.Slice, reflect.Array:
+		return reaches(t.Elem(), onPath)
+	case reflect.Map:
+		return reaches(t.Key(), onPath) || reaches(t.Elem(), onPath)
+	case reflect.Struct:
+		if t == tTime {
+			return false
+		}
+		if onPath[t] {
+			return true
+		}
+		onPath[t] = true
+		defer delete(onPath, t)
+		for i := 0; i < t.NumField(); i++ {
+			if reaches(t.Field(i).Type, onPath) {
+				return true
+			}
+		}
+	}
+	return false
+}
